@@ -76,6 +76,40 @@ let load_image path keep_state =
      dbopen := true;
      if not keep_state then Printf.printf "open ok %d\n" u)
 
+(* lock NH NW step step ... : the lock protocol model (Model/Lock.v).  Handle h lives
+   in process h, SQLite connection w in process NH+w.  Steps: L1 L2 L3 P U C (handle:
+   RLock's three calls, page read, RUnlock, Close) and S1 S2 S3 R Pe X W UA D
+   (connection: SHARED's three calls, RESERVED, PENDING, EXCLUSIVE, write, unlock, die), as tok:index *)
+let run_lock (ws : string list) =
+  match ws with
+  | _ :: nh :: nw :: toks ->
+    let nh = int_of_string nh and nw = int_of_string nw in
+    let step tok =
+      match String.split_on_char ':' tok with
+      | [k; i] ->
+        let i = nat_of_int (int_of_string i) in
+        (match k with
+         | "L1" -> Model.HLock1 i | "L2" -> Model.HLock2 i | "L3" -> Model.HLock3 i | "P" -> Model.HPage i
+         | "U" -> Model.HUnlock i | "C" -> Model.HClose i
+         | "S1" -> Model.WS1 i | "S2" -> Model.WS2 i | "S3" -> Model.WS3 i | "R" -> Model.WRes i
+         | "Pe" -> Model.WPend i | "X" -> Model.WExcl i | "W" -> Model.WWrite i | "UA" -> Model.WUnlockAll i
+         | "D" -> Model.WDie i | _ -> failwith ("bad step " ^ tok))
+      | _ -> failwith ("bad step " ^ tok) in
+    let rec int_of_nat = function Model.O -> 0 | Model.S k -> 1 + int_of_nat k in
+    let hpid h = h and wpid w = nat_of_int (nh + int_of_nat w) in
+    let s = Model.run (nat_of_int (nh + nw)) hpid wpid (List.map step toks) in
+    let k = function Model.NoLock -> "-" | Model.Rd -> "R" | Model.Wr -> "W" in
+    let row p = Printf.sprintf "pending=%s reserved=%s shared=%s" (k (s.Model.tbl p Model.Pending)) (k (s.Model.tbl p Model.Reserved)) (k (s.Model.tbl p Model.Shared)) in
+    let hs = function Model.HIdle -> "idle" | Model.HPending -> "pending" | Model.HBoth -> "both" | Model.HLocked -> "locked" | Model.HClosed -> "closed" in
+    let wss = function Model.WUnlocked -> "unlocked" | Model.WSharedTmp1 -> "shared1" | Model.WSharedTmp2 -> "shared2" | Model.WShared -> "shared"
+                     | Model.WReserved -> "reserved" | Model.WPending -> "pending" | Model.WExclusive -> "exclusive" | Model.WDead -> "dead" in
+    for h = 0 to nh - 1 do Printf.printf "h%d %s %s\n" h (hs (s.Model.hst (nat_of_int h))) (row (hpid (nat_of_int h))) done;
+    for w = 0 to nw - 1 do Printf.printf "w%d %s %s\n" w (wss (s.Model.wst (nat_of_int w))) (row (wpid (nat_of_int w))) done;
+    let cnt f = List.length (List.filter f s.Model.evs) in
+    Printf.printf "events pages=%d writes=%d busy=%d\n" (cnt (function Model.EvPage _ -> true | _ -> false))
+      (cnt (function Model.EvWrite _ -> true | _ -> false)) (cnt (function Model.EvBusy _ -> true | _ -> false))
+  | _ -> print_endline "lock: bad command"
+
 let starts_with p s = String.length s >= String.length p && String.sub s 0 (String.length p) = p
 
 let () =
@@ -86,6 +120,7 @@ let () =
       else if line.[0] = '#' then (print_endline line; flush stdout)
       else if starts_with "db " line then load_image (String.sub line 3 (String.length line - 3)) false
       else if starts_with "reload " line then load_image (String.sub line 7 (String.length line - 7)) true
+      else if starts_with "lock " line then run_lock (String.split_on_char ' ' line)
       else if line = "store model" then (store_model := true; dbst := Model.init_state)
       else if line = "store memo" then store_model := false
       else if line = "rlock" then (if !store_model then dbst := Model.rlock !dbst)
